@@ -43,6 +43,7 @@ fn main() {
         "C11" => drive(props::c11::C11, mode, file),
         "C13" => drive(props::c13::C13, mode, file),
         "C14" => drive(props::c14::C14, mode, file),
+        "C19" => drive(props::c19::C19, mode, file),
         "C12" => drive(props::c11::C12, mode, file),
         other => {
             eprintln!("unknown property {}", other);
